@@ -1482,6 +1482,12 @@ BW_MidiSequencer::MidiEvent BW_MidiSequencer::parseEvent(const uint8_t **pptr, c
     if(byte == MidiEvent::T_SPECIAL)
     {
         // Special event FF
+        if(ptr + 1 > end)
+        {
+            m_parsingErrorsString += "parseEvent: Can't read Special event type - Unexpected end of track data.\n";
+            evt.isValid = 0;
+            return evt;
+        }
         uint8_t  evtype = *(ptr++);
         uint64_t length = readVarLenEx(pptr, end, ok);
         if(!ok || (ptr + length > end))
